@@ -178,13 +178,66 @@ def run(ctx):
             if pn[r] != t.target[node]:
                 ctx.violation(f"new point {Xn[r].tolist()} predicted {pn[r]} but lies in the region of leaf node {node} (cluster {t.target[node]})",
                               "predict", {**inp, "x": Xn[r].tolist()}, key="predict:new-point", how=how)
+    hybrid(ctx, rs, 120 if ctx.tier == "quick" else 1000, cases, impls, lines)
     try:
         outs = core.run_driver("Kauri", lines)
     except core.DriverBuildError as e:
         ctx.proof["broken"].append({"theorem": "model build", "reason": str(e)[-400:]})
         outs = []
     for inp, a, o in zip(cases, impls, outs):
-        ctx.compared("fit")
+        unit = "fit:hybrid" if "scripted_prefix" in inp else "fit"
+        ctx.compared(unit)
         if a != canon_model(o):
-            ctx.corr_break("fit", inp, {"impl": a, "model": canon_model(o)})
+            ctx.corr_break(unit, inp, {"impl": a, "model": canon_model(o)})
     return ctx.finish()
+
+
+def gen_hybrid_case(rs):
+    """cases for the scripted-prefix runs: room for several clusters and leaves, few structural limits"""
+    n = int(rs.randint(6, 15))
+    d = int(rs.randint(1, 4))
+    X = rs.randint(0, 6, size=(n, d)).astype(float)
+    A = rs.randint(-2, 3, size=(n, n))
+    kern = (A + A.T).astype(float) if rs.rand() < 0.6 else (A @ A.T).astype(float)
+    msl = int(rs.choice([1, 1, 1, 2]))
+    params = dict(max_clusters=int(rs.choice([2, 3, 4, 5, 5, 6, 7])), max_depth=[None, None, None, 3, 4][rs.randint(5)],
+                  min_samples_leaf=msl, max_features=[None, None, 1, 2][rs.randint(4)],
+                  max_leaves=[None, None, None, 5, 6][rs.randint(5)], kernel="precomputed", random_state=int(rs.randint(1000)))
+    params["min_samples_split"] = max(2, 2 * msl) + int(rs.choice([0, 0, 0, 1, 2]))
+    return X, kern, params
+
+
+def hybrid(ctx, rs, count, cases, impls, lines):
+    """the fit loop from intermediate states the greedy search seldom reaches: the first answers of find_best_split are
+    scripted admissible splits of every kind (star, double star, switch, reallocation), the rest is the real search"""
+    how = ("harness.kauri_lib.run_hybrid_fit(X, kernel, params, rs, prefix_len): Kauri.fit with scripted admissible answers "
+           "of find_best_split for the first steps; invariants()")
+    for _ in range(count):
+        X, kern, params = gen_hybrid_case(rs)
+        plen = int(rs.randint(1, 7))
+        inp = {"X": X.tolist(), "kernel": kern.tolist(), "params": params}
+        try:
+            h = kl.run_hybrid_fit(X, kern, params, rs, plen)
+        except Exception as e:
+            ctx.case(("hybrid-raise", X.tobytes(), repr(params)), False, None)
+            ctx.violation(f"Kauri.fit/score/predict raised {type(e).__name__}: {e} (after scripted admissible splits)", "fit:hybrid",
+                          inp, key=f"fit:hybrid:raise:{type(e).__name__}", how=how)
+            continue
+        model = h["model"]
+        inp["scripted_prefix"] = [[str(x) for x in b] for b in h["prefix"]]
+        nsplits = (model.tree_.n_nodes - 1) // 2
+        ctx.case(("hybrid", X.tobytes(), kern.tobytes(), repr(sorted(params.items(), key=str)), repr(h["prefix"])),
+                 nsplits >= 1, {"n": len(X), "params": params, "splits": nsplits, "scripted": len(h["prefix"])} if nsplits > 2 else None)
+        for st, tup, scripted, errs in h["calls"]:
+            if scripted:
+                ctx.count("scripted:" + kl.split_kind(st, tup[2], tup[3], tup[1]))
+            elif tup[0] > 0:
+                ctx.count("after-script:" + kl.split_kind(st, tup[2], tup[3], tup[1]))
+            for e in errs:
+                ctx.violation(f"find_best_split is called on an inconsistent tree state: {e}", "fit:hybrid", inp,
+                              key="fit:bookkeeping", how=how)
+        for name, msg in invariants(model, X, kern, params, h["pred"], h["score"]):
+            ctx.violation(msg + " (run with a scripted prefix of admissible splits)", "fit:hybrid", inp, key=f"inv:{name}", how=how)
+        cases.append(inp)
+        impls.append(canon_impl(model, h["score"], h["pred"]))
+        lines.append(kl.fith_line(X, kern, params, h["prefix"], h["draws"]))
